@@ -19,7 +19,8 @@ RULE = ('full product of shapes x charge-vector pairs over a 3-letter alphabet x
         '{complex,real,rankdef,degenerate,dyadic,zero} x tolerance set (incl. exact cumulative weights 1/4,1/2,3/4 of dyadic spectra); '
         'two-site tensor split over d0,d1,D0,D2 in {1,2} x charges x 3 distributions; non-trivial = non-zero matrix with a shared charge')
 BUDGET = {'quick': 400, 'thorough': 3000}
-KINDS = ['complex', 'real', 'rankdef', 'degenerate', 'dyadic', 'zero']
+KINDS = ['complex', 'real', 'rankdef', 'degenerate', 'dyadic', 'zero', 'tiny', 'large']
+SCALES = {'tiny': 2.0 ** -60, 'large': 2.0 ** 60}
 TOLS = [0.0, 1e-12, 0.1, 0.25, 0.5, 0.75, 0.9, 0.2499, 0.2501]
 DELTA = 1e-12
 
@@ -87,7 +88,9 @@ def run_case(case, ctx):
     q0l, q1l, cm, kind = case
     f = palette.charge_map(cm)
     q0, q1 = f(q0l), f(q1l)
-    A = palette.block_matrix(ctx.rng(0), q0, q1, kind)
+    # 'tiny' / 'large': generic entries times an exact power of two (the split is judged after undoing the scaling)
+    sc = SCALES.get(kind, 1.0)
+    A = palette.block_matrix(ctx.rng(0), q0, q1, 'complex' if kind in SCALES else kind) * sc
     if kind in ('real', 'dyadic'):
         A = A.real.copy()
     # memory layout of the argument: C-contiguous, Fortran-ordered, or a non-contiguous view (keyed by the case, all three occur)
@@ -111,7 +114,7 @@ def run_case(case, ctx):
         ctx.obs(u, s, v)
         ctx.check(np.array_equal(A, A0) and A.dtype == A0.dtype and A.strides == strides0, 'input_not_modified')
         nf = len(ctx.fails)
-        judge_split(ctx, A0, u, s, v, q, q0, q1, tol)
+        judge_split(ctx, A0 / sc, u, np.asarray(s) / sc, v, q, q0, q1, tol)
         if len(ctx.fails) > nf:
             ctx.fails[nf] = (ctx.fails[nf][0], f'tol={tol} ' + str(ctx.fails[nf][1]))
             return
